@@ -483,6 +483,17 @@ Proof.
 Qed.
 Print Assumptions line_index_in_range.
 
+(* hypotheses satisfiable: `var a = 1; print(a + 2);` as the compiler emits it (VerifierExamples.f_ok), with
+   a line table that puts every byte on line 1; the saved ip after `Call 1` (offset 18) indexes byte 17 *)
+Example line_index_example :
+  let f := mkFn [0;1;0; 9;0;0; 8;2;0; 8;0;0; 0;3;0; 20; 51;1; 4; 1; 57]%N [CStr; CNum; CStr; CNum] 1 0 in
+  let lines := repeat 1%N 21 in
+  (match verify_fn false [f] f with FOk a => check_fn false [f] f a | FReject _ _ => false end) = true /\
+  List.length lines = List.length (code f) /\
+  line_at (mkFd "" "main" lines) 18 = Some 1%N /\ line_at (mkFd "" "main" lines) 0 = None /\
+  line_at (mkFd "" "main" lines) 22 = None.
+Proof. vm_compute. repeat split; reflexivity. Qed.
+
 (* ------------------------------------------------------------------ *)
 (** * 5. token lines stay inside the source; compile errors *)
 
